@@ -16,7 +16,7 @@
 
 From Coq Require Import List NArith PArith Bool Arith Lia FMapPositive.
 From OxiVerif Require Import DD.Table DD.TableProofs DD.Canon DD.Sem DD.Build DD.BuildProofs
-  DD.Apply DD.ApplyProofs Mgr.Oom Mgr.OomProofs.
+  DD.Apply DD.ApplyProofs DD.ApplyEvalProofs Mgr.Oom Mgr.OomProofs.
 Import ListNotations.
 
 (** ** What an extension preserves *)
@@ -591,3 +591,45 @@ Proof.
 Qed.
 
 End Top.
+
+(** ** Variable creation ([var_edge] / [not_var_edge]): one insertion, no
+    recursion.  On failure no table is returned at all: the manager is
+    untouched. *)
+
+Theorem oom_var_exact : forall cap s v neg, BddOK s -> v < nlevels s ->
+  exists s' r, mk_var s v neg = Some (s', r) /\ BddOK s' /\ extends s s' /\ ref_ok s' r /\
+    (forall a, ApplyEvalProofs.bfun_of s' r a = xorb neg (var_s v a)) /\
+    (node_count s' <= Nat.max cap (node_count s) -> mk_var_cap cap s v neg = Some (Some (s', r))) /\
+    (Nat.max cap (node_count s) < node_count s' ->
+       mk_var_cap cap s v neg = Some None /\ cap <= node_count s).
+Proof.
+  intros cap s v neg B Hv.
+  destruct (ApplyEvalProofs.mk_var_bfun s v neg B Hv) as [s' [r [Ev [B' [X [R V]]]]]].
+  exists s', r. split; [exact Ev|]. split; [exact B'|]. split; [exact X|]. split; [exact R|].
+  split; [exact V|].
+  unfold mk_var in Ev. unfold mk_var_cap.
+  destruct (nth_error (s_v2l s) v) as [lvl|]; [|discriminate].
+  destruct (term_of s true) as [t1|]; [|discriminate].
+  destruct (term_of s false) as [t0|]; [|discriminate].
+  set (ch := if neg then [E (RT t0); E (RT t1)] else [E (RT t1); E (RT t0)]) in *.
+  destruct (get_or_insert s lvl ch) as [s1 e] eqn:Eg. inversion Ev; subst s1 r.
+  destruct (get_or_insert_cap_fits cap s lvl ch s' e Eg) as [Hc Hf]. split.
+  - intros Hfit. rewrite (Hf Hfit). reflexivity.
+  - intros Hbig. destruct (get_or_insert_cap cap s lvl ch) as [[s2 e2]|] eqn:Ec.
+    + exfalso. destruct (get_or_insert_cap_some cap s lvl ch _ Ec) as [Hx Hb].
+      rewrite Eg in Hx. inversion Hx; subst. simpl in Hb. lia.
+    + split; [reflexivity|]. apply (get_or_insert_cap_none cap s lvl ch Ec).
+Qed.
+
+Theorem oom_var_never_wrong : forall cap s v neg s' r,
+  mk_var_cap cap s v neg = Some (Some (s', r)) -> mk_var s v neg = Some (s', r).
+Proof.
+  intros cap s v neg s' r. unfold mk_var_cap, mk_var.
+  destruct (nth_error (s_v2l s) v) as [lvl|]; [|discriminate].
+  destruct (term_of s true) as [t1|]; [|discriminate].
+  destruct (term_of s false) as [t0|]; [|discriminate].
+  set (ch := if neg then [E (RT t0); E (RT t1)] else [E (RT t1); E (RT t0)]).
+  destruct (get_or_insert_cap cap s lvl ch) as [[s2 e2]|] eqn:Ec; [|discriminate].
+  intros Heq. inversion Heq; subst.
+  destruct (get_or_insert_cap_some cap s lvl ch _ Ec) as [-> _]. reflexivity.
+Qed.
